@@ -10,6 +10,7 @@ import Proofs.ProbingBuildChainSem
 import Proofs.ArpaOKCheck
 import Proofs.ProbingRestFold
 import Proofs.ProbingRestScore
+import Proofs.ProbingRestChain
 import Properties.C03
 /-! C03/C01 — the probing *builder* inside the model (`Model/ProbingBuild.lean` = lm/search_hashed.cc ReadNGrams,
 FindLower, AdjustLower, MarkLower, activate, unigram sign fix, missing-`<unk>` fix-up).
@@ -22,9 +23,12 @@ for every proper loadable ARPA**: blank chains of any length over a basis of any
 `unkBasis`, section order, distinct n-grams, hash injectivity per order, capacity).  `demoPruned_represents` /
 `demoPruned_end_to_end` instantiate them on a model with a two-level chain.  Excluded (known finding
 `blank-based-on-hallucinated-unk`): blanks based on a hallucinated `<unk>`.
-`MaxRestBuild` (`rest = true`, REST_MAX): `probing_rest_build_closed_partial` proves, for models without blanks, that the
-builder succeeds and stores `rest = max(prob, max over left extensions)` (`restOf`) next to the `NoRestBuild` payload;
-blank chains under `MaxRestBuild` and the repackaging as `Represents`/`FullScore.rest` are open (differential check only).
+`MaxRestBuild` (`rest = true`, REST_MAX), models without blanks: `probing_rest_build_represents_closed` (`RepresentsR` with
+`R := restOf a Sf` = C08's `maxRest`, `probing_rest_is_maxRest`), `probing_rest_refines` (the built structure answers like
+`KV.Left.restSearch T R`, the search C08's theorems are stated for) and `probing_rest_end_to_end_closed` (`FullScore.prob` =
+ARPA recursion, `FullScore.rest` = `restOf` of the longest match).  Blank chains under `MaxRestBuild`: loop lemmas and the
+operational part up to `AdjustLower` (`probing_rest_chain_adjust_partial`); the `MarkLower` tail and the key-level evaluation
+of `rest` on chains are open (differential check only).
 Superseded, kept for the audit lists: `ProbingBuildRepresents` (def), `probing_end_to_end_partial`, `_closed`, `_blank1`,
 `_single`, `probing_chain_line_partial`. -/
 namespace KV.C03ProbingBuild
@@ -528,5 +532,29 @@ as a reversed prefix) -/
 theorem probing_rest_is_maxRest (a : Arpa) (wf : WellFormed a) (Sf : List Key) (f : Final a Sf) (g : Key)
     (hg : (Table.build a).lookup g ≠ none) : restOf a Sf g = KV.Left.maxRest (Table.build a) Sf g :=
   restOf_eq_maxRest a wf Sf f g hg
+
+/-- **Blank chains under `MaxRestBuild`, operational part up to `AdjustLower` (partial).**  For a line with `L ≥ 1` missing
+suffixes over a basis of order `b`, from any state described by a key-indexed payload function `want0`: insertion,
+`FindLower` and `AdjustLower` with `rest = true` succeed and leave the payloads `want1` (blanks appended, line inserted)
+updated by `fillUsT` (blank probabilities filled bottom-up, each blank's `rest` = its probability) and `markUsT`
+(`MarkExtends` along the chain with the chained `longerRest`, starting from the line's `rest`).  Loop lemmas
+`fillBlanks_chainT`, `markChain_chainT`, `adjustLower_chainT`.  Not proved: the `MarkLower`/`activate` tail on this state
+(`markLower_chain` applies once monotonicity of the intermediate `rest` values is shown) and the key-level evaluation
+(`rest` of a new blank = maximum over the chain above it), hence no `probing_rest_build_represents` for models with blanks. -/
+theorem probing_rest_chain_adjust_partial (combine : Nat → Word → Nat) (a : Arpa) (u0 : List W) (N : Nat) (caps : Nat → Nat)
+    (S : List Key) (s : St) (want0 : Key → W) (h : StP combine N caps u0.length s (keysOf S) want0) (si : SInv a S)
+    (p : Key) (e : Entry) (lc : LC combine a u0 N caps S p e) (b L : Nat) (hb : 1 ≤ b) (hL : 1 ≤ L) (hpl : p.length = b + L + 1)
+    (hbasis : b = 1 ∨ p.take b ∈ S) (hmiss : ∀ j, b < j → j ≤ b + L → p.take j ∉ S)
+    (hcapn : (keysOf S (b + L + 1)).length + 1 < caps (b + L + 1))
+    (hcapj : ∀ j, b < j → j ≤ b + L → (keysOf S j).length + 1 < caps j) :
+    ∃ s3 Ks' want1,
+      (insPhase combine N s p e >>= fun s1 => findLower combine p (p.length - 2) s1 [] >>= fun r =>
+        adjustLower combine true (lineW e).rest p p.length r.2 r.1) = .ok s3 ∧
+      (∀ m, Ks' m = if b < m ∧ m ≤ b + L then keysOf (S ++ [p]) m ++ [p.take m] else keysOf (S ++ [p]) m) ∧
+      (∀ k, want1 k = if b < k.length ∧ k.length ≤ b + L ∧ k = p.take k.length then blankW else updW want0 p (lineW e) k) ∧
+      StP combine N caps u0.length s3 Ks'
+        (applyUpd (applyUpd want1 (fillUsT want1 p L b (-(want1 (p.take b)).mag)))
+          (markUsT (applyUpd want1 (fillUsT want1 p L b (-(want1 (p.take b)).mag))) (chainKeys p b L) (lineW e).rest)) :=
+  addLine_chainT_adjust combine a u0 N caps S s want0 h si p e lc b L hb hL hpl hbasis hmiss hcapn hcapj
 
 end KV.C03ProbingBuild
